@@ -120,16 +120,18 @@ def pythConf (p : Pyth) (useEma : Bool) (maxConf : Int) : Res Int := do
   let price ← pythComponents (if useEma then p.emaPrice else p.price) p.expo
   confGate ci price maxConf
 
-/-- `I80F48::from_num(i128)`: wraps when the value does not fit (debug assertions are off on chain) -/
-def fromNumWrap (x : Int) : Int := wrap (x * ONE)
+/-- `I80F48::checked_from_num(i128)` -/
+def fromNum? (x : Int) : Option Int := chk (x * ONE)
 
 def swbPrice (value : Int) : Res Int := do
   let e ← exp10fx 18
-  math (div? (fromNumWrap value) e)
+  let v ← math (fromNum? value)
+  math (div? v e)
 
 def swbConf (value stdDev maxConf : Int) : Res Int := do
   let e ← exp10fx 18
-  let a ← math (div? (fromNumWrap stdDev) e)
+  let sd ← math (fromNum? stdDev)
+  let a ← math (div? sd e)
   let ci ← math (mul? a STD_DEV_MULTIPLE)
   let price ← swbPrice value
   confGate ci price maxConf
